@@ -58,7 +58,8 @@ def run(chk):
                        "(uniq_nodup; the search for a free `key--n` never fails, by pigeonhole: fresh_not_used), keys that occur once are kept, and "
                        "marking_sound: if the tree marks every position whose key changed, an item that is not told `true` and reuses an old node reuses the "
                        "node of its own position (the statement finding D62 violated). The node moves (LIS, insertions, removals) are executed, not modelled"]
-    chk.model_tie([("GE.Thm.C06", THEOREMS), ("GE.Thm.C06Guard", THM_GUARD), ("GE.Thm.C06Rlm", THM_RLM), ("GE.Thm.C06Tag", THM_TAG)])
+    chk.model_tie([("GE.Thm.C06", THEOREMS), ("GE.Thm.C06Guard", THM_GUARD), ("GE.Thm.C06Rlm", THM_RLM), ("GE.Thm.C06Tag", THM_TAG),
+                   ("GE.Thm.C06TagJson", ["GE.TagSem.json_updates_refine", "GE.TagSem.jsonLaw"])])
     rng = chk.rng.fork("c06")
     rlm_stream(chk, chk.rng.fork("rlm"), quick)
     # the tag-level model (update_refines is about it) vs the real compiler + runtime: trees, values and node reuse over generated histories
